@@ -1,6 +1,9 @@
 package main
 
 func init() {
+	checks["PANICTEST"] = func(r *Report, p *Program, tier string) {
+		RulePanic(r, p, "thorough", wireReachableTypes(p))
+	}
 	checks["LISTENTEST"] = func(r *Report, p *Program, tier string) {
 		RuleListen(r, p)
 		RuleImmutable(r, p)
